@@ -44,7 +44,19 @@ pub fn directed() -> Vec<(&'static str, Vec<Step>)> {
     let create = |n: &str| d(Op::CreateTable { name: n.into(), cols: kv.clone() });
     let ins = |n: &str, rows: Vec<Vec<V>>| d(Op::Insert { table: n.into(), rows });
     let keq = |k: i32| Some(crate::exprmodel::MExpr::Bin(crate::exprmodel::Bin::Eq, Box::new(crate::exprmodel::MExpr::Col("K".into())), Box::new(crate::exprmodel::MExpr::Lit(V::Int(k)))));
-    vec![
+    let mut out: Vec<(&'static str, Vec<Step>)> = Vec::new();
+    // the whole repertoire of every code page (every character of a single-byte page's upper half): the bytes in
+    // the saved file must be the page's own encoding of what the API reports
+    for page in crate::cpora::all_ids() {
+        let chars = crate::cpora::wide_repertoire(page, 700);
+        if chars.is_empty() {
+            continue;
+        }
+        let rows: Vec<Vec<V>> = chars.chunks(24).enumerate().map(|(i, ch)| vec![V::Int(i as i32 + 1), V::Str(format!("t0x{} {}", i + 1, ch.iter().collect::<String>()))]).collect();
+        let name: &'static str = Box::leak(format!("whole-repertoire-cp{}", page).into_boxed_str());
+        out.push((name, vec![d(Op::SetDbCodepage(page)), create("R"), ins("R", rows), Step::Close(CloseMode::IntoInner)]));
+    }
+    out.extend(vec![
         (
             "slot-reuse-after-delete",
             vec![
@@ -124,7 +136,8 @@ pub fn directed() -> Vec<(&'static str, Vec<Step>)> {
             "empty-string-cells",
             vec![create("T"), ins("T", vec![vec![V::Int(1), V::s("")], vec![V::Int(2), V::s("")]]), d(Op::Update { table: "T".into(), sets: vec![("V".into(), V::s(""))], cond: None })],
         ),
-    ]
+    ]);
+    out
 }
 
 pub fn run_steps(rep: &mut Report, steps: &[Step], case: serde_json::Value, fp: u64) {
